@@ -8,7 +8,8 @@ from stages import beaconnet
 def design(ctx, configs):
     """configs: list of (cfg, kwargs). All are expected to hold."""
     for cfg, kw in configs:
-        ctx.model_check("MC_Beacon", cfg, **kw)
+        kw = dict(kw)
+        ctx.model_check(kw.pop("module", "MC_Beacon"), cfg, **kw)
 
 
 def early_cex(ctx):
